@@ -2,7 +2,7 @@
    the calling VM first computes the hash of the column node - which is the hash of the entry it caches
    (CachedColumn.compute_hash propagates input 0), i.e. the same hash pass graph.get_hash(key) makes - and then runs
    evaluate.  Hand-written glue; compared with the real layer on request sequences (tools/props/colmodel.py). *)
-From Connectome Require Import Values MiscGen ColStore ColumnsGen.
+From Connectome Require Import Values ShardGen ColStore ColumnsGen.
 
 Section Request.
 Variables req deq : nhash -> nhash -> bool.
